@@ -95,6 +95,8 @@ def run_cli(world, args, timeout=120, env_extra=None, interpose=True,
     sf = world.get('env', {}).get('spawn_fail')
     if sf:
         env['VERIF_SPAWN_FAIL'] = json.dumps(sf)
+        if world['env'].get('spawn_errno'):
+            env['VERIF_SPAWN_ERRNO'] = world['env']['spawn_errno']
     if env_extra:
         env.update(env_extra)
     cmd = [python or PY, os.path.join(BOOT, 'zt.py'),
